@@ -10,9 +10,9 @@ CONSTANTS
   Len2 = 1
   Kinds = {"define", "print", "write_file", "invalid", "loop"}
   LoopForms = {{"collection", "variable", "body"}, {"map", "key", "value", "body"}, {"map", "body"}, {"map", "value", "body"}, {"collection", "body"}}
-  ReqKeys = {"name/p=x", "name", "parent%project", "parent%shelf"}
-  MaxReq = 2
-  MaxLen = 2
+  ReqKeys = {"name/p=x", "parent%project"}
+  MaxReq = 1
+  MaxLen = 3
   MaxDepth = 2
 SPECIFICATION SpecT
 INVARIANT Inv_Type
